@@ -231,8 +231,8 @@ func oneShot(c *vf.Ctx) {
 
 // includes both sides of every UTF-16 encoding boundary: U+D7FF/U+E000 (around the surrogate block), U+FFFF/U+10000/U+10001 (BMP edge), U+10FFFF (last code point)
 var runeAlpha = []string{"a", "Z", "0", " ", "\x00", "é", "ß", "Σ", "я", "€", "\ud7ff", "\ue000", "\uffff", "\U00010000", "\U00010001", "\U00010428", "\U0001F600", "\U0010FFFF",
-	// code points a text layer likes to treat specially (byte-order mark, its mirror, zero-width and no-break space, line ends): to a hash they are characters like any other
-	"\ufeff", "\ufffe", "\u200b", "\u00a0", "\t", "\n", "\r"}
+	// code points a text layer likes to treat specially (byte-order mark, its mirror, the replacement character - which is what a decoder ALSO reports for malformed input, so "is it U+FFFD" must never mean "was it malformed" - zero-width and no-break space, line ends): to a hash they are characters like any other
+	"\ufeff", "\ufffe", "\ufffd", "\ufffc", "\u200b", "\u00a0", "\t", "\n", "\r"}
 
 func ntAndUTF16(c *vf.Ctx) {
 	ss := enum.Strings(runeAlpha, c.Pick(3, 4))
